@@ -288,7 +288,10 @@ def replay(w):
                 return {'reproduced': True, 'detail': 'after %s the manifest lists %s, whose file cannot be loaded (%s)' % ('a failed write (OSError from torch.save)' if w.get('write_fails') else ('a hard kill' if w.get('hard', True) else 'a soft interruption'), u, type(e).__name__)}
         command_line.signals_to_torch_feat_dir(args(out, man))
         for u in range(nutt):
-            a = torch.load(os.path.join(out, uid(u, nutt) + '.pt'))
+            try:
+                a = torch.load(os.path.join(out, uid(u, nutt) + '.pt'))
+            except Exception as e:
+                return {'reproduced': True, 'detail': 'after kill (during utterance %d) + resume, the file of %s (map line %d) is missing or incomplete (%s)' % (k, uid(u, nutt), u, type(e).__name__)}
             b = torch.load(os.path.join(ref, uid(u, nutt) + '.pt'))
             if a.shape != b.shape or not torch.equal(a, b):
                 return {'reproduced': True, 'detail': 'after kill (during utterance %d) + resume, %s (map line %d, ids not sorted) differs from the uninterrupted run (max diff %.3g)'
